@@ -464,8 +464,15 @@ def extract_deloop(facts, rep):
             continue
         marked = None
         for e in p.branches():
-            if 'base_pt' in sk(e.term) and 'unwrap_or' in sk(e.term):
-                marked = (e.value == 'else')
+            t_ = sk(e.term)
+            if 'base_pt' not in t_:
+                continue
+            if 'unwrap_or' in t_ or 'map_or' in t_ or 'is_some_and' in t_ or t_.startswith('contains('):
+                marked = (e.value != 0)
+            elif t_.startswith('discr(') and e.value == 0:
+                marked = False
+            elif t_.startswith('is_none(') and e.value != 0:
+                marked = False
         rows = []
         for e in p.calls():
             if e.name.endswith('::insert') and len(e.args) == 3:
@@ -528,6 +535,8 @@ def check_deloop(facts, rep):
     ok = all(bt == 'Tgt' for (_, bt, _) in e_un + e_b) and {l: d for (l, _, d) in e_un} == cdeath and [(l, d) for (l, _, d) in e_b] == [('X', cdeath.get('X'))]
     if ok and e_un:
         rep.ok('E9.R6-deloop-dual-basis', inst, 'unbased %s, based %s' % (e_un, e_b))
+    elif not e_un or not e_b or any('?' in r for r in e_un + e_b):
+        rep.indet('E9.R6: BuildElem::deloop outside the recognised fragment: unbased %s, based %s' % (e_un, e_b))
     else:
         rep.violation('E9.R6-deloop-dual-basis', inst,
                       'cycles are delooped with %s / %s but the complex uses death dots %s: the transported cycle is no longer the image of the original one' % (e_un, e_b, cdeath),
@@ -734,42 +743,111 @@ def check_shortcuts(facts, rep, dt):
 
 def check_based_predicate(facts, rep):
     """R8: "this circle carries the base point" is decided by one predicate at both delooping sites - the complex
-    (TngComplex::contains_base_pt) and the tracked cycles (BuildElem::deloop): base_pt.map(|e| c.contains(e)).unwrap_or(false).
-    Membership must be `contains`: the base point is an edge *on* the circle, not a distinguished (e.g. minimal) edge of
-    it, otherwise the reduced theory depends on how the edges are numbered."""
+    (TngComplex::contains_base_pt) and the tracked cycles (BuildElem::deloop): based iff there is a base point and the circle
+    *contains* it. Decided by value: both sites are folded over (base point present?, circle contains it?, any other test
+    involving the base point - e.g. "it is the minimal edge of the circle"); the complex answers the predicate, the cycles
+    show it by inserting one label (X) instead of two. Membership must be `contains`: a distinguished edge makes the
+    reduced theory depend on how the edges are numbered."""
+    from symex import apply_closure
     sites = {'complex': 'yui_kh::kh::internal::v2::tng_complex::TngComplex::<R>::contains_base_pt',
              'cycles': 'yui_kh::kh::internal::v2::builder::BuildElem::<R>::deloop'}
-    got = {}
-    for who, fn in sites.items():
-        b = facts.bodies.get(fn)
-        if b is None:
-            rep.indet('E9.R8: %s not found' % fn)
+    dt = DTree(facts)
+    used = set()
+
+    def nk(t):
+        return re.sub(r'\^_ref__', '^', sk(t)).replace('*', '').replace('&', '')
+
+    def make_atom(B, C, M, circ):
+        def atom(t, ev):
+            s = nk(t)
+            if t[0] == 'discr' and nk(t[1]) == 'arg1.base_pt':
+                return (1 if B else 0,)
+            if t[0] == 'call':
+                nm = t[1].split('::')[-1]
+                if nm in ('is_some', 'is_none') and len(t[2]) == 1 and nk(t[2][0]) == 'arg1.base_pt':
+                    return (int(B == (nm == 'is_some')),)
+                if nm in ('unwrap_or', 'map_or', 'is_some_and') and 'arg1.base_pt' in s:
+                    # base_pt.map(f).unwrap_or(d) / base_pt.map_or(d, f) / base_pt.is_some_and(f)
+                    if nm == 'unwrap_or':
+                        m = strip(t[2][0])
+                        if not (m[0] == 'call' and m[1].split('::')[-1] == 'map' and nk(m[2][0]) == 'arg1.base_pt'):
+                            return None
+                        clo, dflt = m[2][1], t[2][1]
+                    elif nm == 'map_or':
+                        clo, dflt = t[2][2], t[2][1]
+                    else:
+                        clo, dflt = t[2][1], ('const', 0)
+                    if not B:
+                        return (ev(dflt),)
+                    rr = set()
+                    for q in apply_closure(clo, [('basept',)]) or []:
+                        if q.end == 'return':
+                            rr.add(dt.ev(q.ret, {}, atom))
+                    if len(rr) != 1:
+                        raise Stuck('base-point closure has %d outcomes' % len(rr))
+                    return (rr.pop(),)
+                if nm == 'contains' and len(t[2]) == 2 and (('basept' in s) or ('base_pt' in s)):
+                    if nk(t[2][0]) in circ:
+                        used.add('contains')
+                        return (C,)
+                    raise Stuck('membership test on %s' % nk(t[2][0])[:60])
+                if nm in ('eq', 'ne') and (('basept' in s) or ('base_pt' in s)):
+                    used.add('other: ' + s[:60])
+                    return (int(M == (nm == 'eq')),)
+            if t[0] == 'bin' and t[1] in ('Eq', 'Ne') and (('basept' in s) or ('base_pt.Some' in s)):
+                used.add('other: ' + s[:60])
+                return (int(M == (t[1] == 'Eq')),)
+            return None
+        return atom
+    tables = {}
+    try:
+        cb = facts.bodies.get(sites['complex'])
+        eb = facts.bodies.get(sites['cycles'])
+        if cb is None or eb is None:
+            rep.indet('E9.R8: contains_base_pt / BuildElem::deloop not found')
             return
-        rep.saw(b)
-        found = set()
-        for p in SymEx(b, havoc_loops=True, max_paths=20000).run():
-            for e in p.calls():
-                if e.name.split('::')[-1] == 'unwrap_or' and len(e.args) == 2:
-                    m = strip(e.args[0])
-                    if m[0] == 'call' and m[1].split('::')[-1] == 'map' and len(m[2]) == 2 and sk(m[2][0]).replace('*', '').replace('&', '') == 'arg1.base_pt':
-                        clo = strip(m[2][1])
-                        body = facts.bodies.get(clo[1]) if clo[0] == 'closure' else None
-                        pr = None
-                        if body is not None:
-                            rr = {re.sub(r'\^_ref__', '^', sk(q.ret)) for q in SymEx(body).run() if q.end == 'return'}
-                            pr = sorted(rr)[0] if len(rr) == 1 else None
-                        found.add((pr, sk(e.args[1])))
-        got[who] = found
-    inst = 'based circle|complex and cycles use base_pt.map(|e| c.contains(e)).unwrap_or(false)'
-    want = {('contains(arg1.^c, arg2)', '0')}
-    if got['complex'] == want and got['cycles'] == want:
-        rep.ok('E9.R8-based-circle-predicate', inst, 'contains(c, e), default false, at both sites')
-    elif not got['complex'] or not got['cycles'] or any(x[0] is None for v in got.values() for x in v):
-        rep.indet('E9.R8: based-circle predicate outside the recognised fragment: %s' % got)
+        rep.saw(cb)
+        rep.saw(eb)
+        tbl = {}
+        for B in (0, 1):
+            for C in (0, 1):
+                for M in (0, 1):
+                    v, _ = dt.decide(cb.defp, {1: 'SELF', 2: 'CIRC'}, make_atom(B, C, M, ('arg2', 'arg1.^c')))
+                    tbl[(B, C, M)] = bool(v)
+        tables['complex'] = tbl
+        paths = [(conds, ret, p) for conds, ret, p in dt.paths(eb.defp)]
+        tbl = {}
+        for B in (0, 1):
+            for C in (0, 1):
+                for M in (0, 1):
+                    at = make_atom(B, C, M, ('arg3', 'arg1.^c'))
+
+                    def at2(t, ev, at=at):
+                        r_ = at(t, ev)
+                        if r_ is not None:
+                            return r_
+                        if t[0] == 'discr' and strip(t[1])[0] == 'call' and strip(t[1])[1].split('::')[-1] == 'remove':
+                            return (1,)        # the element has a retraction at this key
+                        return None
+                    _, p = dt.decide_paths(paths, {1: 'SELF', 2: 'KEY', 3: 'CIRC'}, at2, what='BuildElem::deloop', want_ret=False)
+                    n_ins = sum(1 for e in p.calls() if e.name.endswith('::insert') and len(e.args) == 3)
+                    if n_ins not in (1, 2):
+                        raise Stuck('BuildElem::deloop inserts %d labels' % n_ins)
+                    tbl[(B, C, M)] = (n_ins == 1)
+        tables['cycles'] = tbl
+    except (Stuck, KeyError, TypeError, IndexError) as e:
+        rep.indet('E9.R8: based-circle predicate outside the recognised fragment: %s' % str(e)[:160])
+        return
+    inst = 'based circle|complex and cycles: based iff a base point exists and the circle contains it'
+    want = {(B, C, M): bool(B and C) for B in (0, 1) for C in (0, 1) for M in (0, 1)}
+    bad = [who for who, t in tables.items() if t != want]
+    if not bad:
+        rep.ok('E9.R8-based-circle-predicate', inst, 'both sites folded over 8 points: based = Some(e) and contains(c, e)')
     else:
+        diff = {who: sorted(k for k in want if tables[who][k] != want[k])[:2] for who in bad}
         rep.violation('E9.R8-based-circle-predicate', inst,
-                      'the complex decides "circle carries the base point" by %s, the tracked cycles by %s; both must be contains(c, e) with default false - a based circle delooped with both labels in one place and with X only in the other (or depending on the edge numbering) changes the reduced homology' %
-                      (sorted(got['complex']), sorted(got['cycles'])), where='yui-khovanov/src/kh/internal/v2/tng_complex.rs')
+                      'the %s decide(s) "circle carries the base point" differently from `base point present and contained in the circle` at (present, contained, other test) = %s (tests used: %s) - a based circle delooped with both labels in one place and with X only in the other (or depending on the edge numbering) changes the reduced homology' %
+                      (' and the '.join(bad), diff, sorted(used)), where='yui-khovanov/src/kh/internal/v2/tng_complex.rs')
 
 
 def run(facts, rep, parts=('R1', 'R4', 'R6')):
